@@ -99,6 +99,10 @@ def run(
         pass
     if m:
         r.generated, r.distinct = int(m.group(1)), int(m.group(2))
+    if simulate and not r.generated:
+        m2 = re.search(r"The number of states generated: (\d+)", out)
+        if m2:
+            r.generated = int(m2.group(1))      # simulation mode: TLC does not count distinct states
     m = re.search(r"depth of the complete state graph search is (\d+)", out)
     if m:
         r.depth = int(m.group(1))
